@@ -10,6 +10,7 @@
 -/
 import GfsProofs.CppLemmas
 import GfsProofs.ListOrder
+import GfsProofs.PadLemmas
 
 namespace Gfs.Proofs.CppScan
 open Gfs Gfs.Spec Gfs.Proofs
@@ -17,20 +18,23 @@ open Gfs Gfs.Spec Gfs.Proofs
 /-- a Go bucket and a port bucket hold the same thing -/
 def BRel (root : Bytes) (g : SeqInfo) (c : Cpp.CInfo) : Prop :=
   g.dir = root ∧ g.base = c.base ∧ g.ext = c.ext ∧ g.frames.map (·.num) = c.frames ∧
-  g.minWidth = c.minWidth ∧ g.padding = c.padding
+  g.minWidth = c.minWidth
+
+/-- the pad characters of a port bucket are those of its minimum width, in the scan's style -/
+def CInv (st : PadStyle) (c : Cpp.CInfo) : Prop := c.padding = padChars st c.minWidth
 
 /-- the pad characters of a bucket are those of its minimum width, which one frame has -/
 def PInv (st : PadStyle) (g : SeqInfo) : Prop :=
   g.padding = padChars st g.minWidth ∧ ∃ f ∈ g.frames, f.frame.length = g.minWidth
 
-theorem addFrame_rel (st : PadStyle) (root base ext frame : Bytes) :
+theorem addFrame_rel (st st' : PadStyle) (root base ext frame : Bytes) :
     ∀ (gs : List SeqInfo) (cs : List Cpp.CInfo), Forall2 (BRel root) gs cs →
-      Forall2 (BRel root) (addFrame st root base ext frame gs) (Cpp.addFrame st base ext frame cs)
+      Forall2 (BRel root) (addFrame st root base ext frame gs) (Cpp.addFrame st' base ext frame cs)
   | _, _, .nil => by
     simp only [addFrame, Cpp.addFrame]
-    exact .cons ⟨rfl, rfl, rfl, rfl, rfl, rfl⟩ .nil
+    exact .cons ⟨rfl, rfl, rfl, rfl, rfl⟩ .nil
   | g :: gs, c :: cs, .cons hr hrest => by
-    obtain ⟨hd, hb, he, hf, hm, hp⟩ := hr
+    obtain ⟨hd, hb, he, hf, hm⟩ := hr
     unfold addFrame Cpp.addFrame
     by_cases hk : c.base = base ∧ c.ext = ext
     · have hk' : g.dir = root ∧ g.base = base ∧ g.ext = ext := ⟨hd, hb ▸ hk.1, he ▸ hk.2⟩
@@ -39,14 +43,14 @@ theorem addFrame_rel (st : PadStyle) (root base ext frame : Bytes) :
       by_cases hl : frame.length < c.minWidth
       · have hl' : frame.length < g.minWidth := hm ▸ hl
         simp only [hl, hl', if_true]
-        exact ⟨hd, hb, he, by simp [hf, Cpp.num, atoiOr0], rfl, rfl⟩
+        exact ⟨hd, hb, he, by simp [hf, Cpp.num, atoiOr0], rfl⟩
       · have hl' : ¬ frame.length < g.minWidth := hm ▸ hl
         simp only [hl, hl', if_false]
-        exact ⟨hd, hb, he, by simp [hf, Cpp.num, atoiOr0], hm, hp⟩
+        exact ⟨hd, hb, he, by simp [hf, Cpp.num, atoiOr0], hm⟩
     · have hk' : ¬ (g.dir = root ∧ g.base = base ∧ g.ext = ext) := by
         intro h; exact hk ⟨hb ▸ h.2.1, he ▸ h.2.2⟩
       rw [if_neg hk, if_neg hk']
-      exact .cons ⟨hd, hb, he, hf, hm, hp⟩ (addFrame_rel st root base ext frame gs cs hrest)
+      exact .cons ⟨hd, hb, he, hf, hm⟩ (addFrame_rel st st' root base ext frame gs cs hrest)
 
 theorem addFrame_pinv (st : PadStyle) (d base ext frame : Bytes) :
     ∀ gs : List SeqInfo, (∀ g ∈ gs, PInv st g) → ∀ g ∈ addFrame st d base ext frame gs, PInv st g
@@ -72,6 +76,28 @@ theorem addFrame_pinv (st : PadStyle) (d base ext frame : Bytes) :
       rcases List.mem_cons.1 hg with hg | hg
       · subst hg; exact hx
       · exact addFrame_pinv st d base ext frame xs (fun y hy => h y (List.mem_cons_of_mem _ hy)) g hg
+
+theorem addFrame_cinv (st : PadStyle) (base ext frame : Bytes) :
+    ∀ cs : List Cpp.CInfo, (∀ c ∈ cs, CInv st c) → ∀ c ∈ Cpp.addFrame st base ext frame cs, CInv st c
+  | [], _, c, hc => by
+    simp only [Cpp.addFrame, List.mem_singleton] at hc
+    subst hc
+    rfl
+  | x :: xs, h, c, hc => by
+    unfold Cpp.addFrame at hc
+    have hx := h x List.mem_cons_self
+    by_cases hk : x.base = base ∧ x.ext = ext
+    · rw [if_pos hk] at hc
+      rcases List.mem_cons.1 hc with hc | hc
+      · subst hc
+        by_cases hl : frame.length < x.minWidth
+        · simp only [hl, if_true]; rfl
+        · simp only [hl, if_false]; exact hx
+      · exact h c (List.mem_cons_of_mem _ hc)
+    · rw [if_neg hk] at hc
+      rcases List.mem_cons.1 hc with hc | hc
+      · subst hc; exact hx
+      · exact addFrame_cinv st base ext frame xs (fun y hy => h y (List.mem_cons_of_mem _ hy)) c hc
 
 /-- the entries the Go scan keeps -/
 def kept (e : Entry) : Bool := e.kind = .file ∨ e.kind = .linkFile
@@ -103,15 +129,15 @@ theorem scan_sim (o : ListOpts) (root : Bytes)
       (∀ e ∈ entries, e.kind ≠ .dangling) →
       (∀ e ∈ entries, kept e = true → (o.hidden = true ∨ isPrefixOf ['.'] e.name = false) →
           SingleOk o root e.name) →
-      Forall2 (BRel root) gs cs → (∀ g ∈ gs, PInv o.style g) →
+      Forall2 (BRel root) gs cs → (∀ g ∈ gs, PInv o.style g) → (∀ c ∈ cs, CInv o.style c) →
       ∃ gs' cs' files',
         scanItems o none ((entries.filter fun e => e.kind = .file ∨ e.kind = .linkFile).map
             fun e => ⟨root, e.name⟩) gs files = .ok (gs', files') ∧
         Cpp.scanEntries o root entries cs files = .ok (cs', files') ∧
-        Forall2 (BRel root) gs' cs' ∧ (∀ g ∈ gs', PInv o.style g)
-  | [], gs, cs, files, _, _, hrel, hinv => by
-    exact ⟨gs, cs, files, by simp [scanItems], by simp [Cpp.scanEntries], hrel, hinv⟩
-  | e :: rest, gs, cs, files, hnd, hs, hrel, hinv => by
+        Forall2 (BRel root) gs' cs' ∧ (∀ g ∈ gs', PInv o.style g) ∧ (∀ c ∈ cs', CInv o.style c)
+  | [], gs, cs, files, _, _, hrel, hinv, hcinv => by
+    exact ⟨gs, cs, files, by simp [scanItems], by simp [Cpp.scanEntries], hrel, hinv, hcinv⟩
+  | e :: rest, gs, cs, files, hnd, hs, hrel, hinv, hcinv => by
     have hnd' : ∀ e ∈ rest, e.kind ≠ .dangling := fun x hx => hnd x (List.mem_cons_of_mem _ hx)
     have hs' : ∀ e ∈ rest, kept e = true → (o.hidden = true ∨ isPrefixOf ['.'] e.name = false) →
         SingleOk o root e.name := fun x hx => hs x (List.mem_cons_of_mem _ hx)
@@ -131,7 +157,7 @@ theorem scan_sim (o : ListOpts) (root : Bytes)
       by_cases hhid : (!o.hidden ∧ isPrefixOf ['.'] e.name)
       · -- hidden, both skip
         rw [if_pos hhid, if_pos hhid]
-        exact ih gs cs files hnd' hs' hrel hinv
+        exact ih gs cs files hnd' hs' hrel hinv hcinv
       · rw [if_neg hhid, if_neg hhid, if_neg hed, if_neg hnotld]
         have hvis : o.hidden = true ∨ isPrefixOf ['.'] e.name = false := by
           cases hh : o.hidden
@@ -149,12 +175,12 @@ theorem scan_sim (o : ListOpts) (root : Bytes)
         by_cases hok : (m.isSome ∧ !(m.getD ([], [], [])).2.1.isEmpty ∧
             !((m.getD ([], [], [])).1.isEmpty ∧ (m.getD ([], [], [])).2.2.isEmpty))
         · rw [if_pos hok, if_pos hok]
-          exact ih _ _ files hnd' hs' (addFrame_rel o.style root _ _ _ gs cs hrel)
-            (addFrame_pinv o.style root _ _ _ gs hinv)
+          exact ih _ _ files hnd' hs' (addFrame_rel o.style o.style root _ _ _ gs cs hrel)
+            (addFrame_pinv o.style root _ _ _ gs hinv) (addFrame_cinv o.style _ _ _ cs hcinv)
         · rw [if_neg hok, if_neg hok]
           cases hsi : o.single
           · simp only [Bool.false_eq_true, if_false]
-            exact ih gs cs files hnd' hs' hrel hinv
+            exact ih gs cs files hnd' hs' hrel hinv hcinv
           · simp only [if_true]
             rcases hso with h | h | ⟨hsome, hfr, hext, hps⟩
             · exact absurd h hok
@@ -169,7 +195,7 @@ theorem scan_sim (o : ListOpts) (root : Bytes)
                 (m.getD ([], [], [])).1 (m.getD ([], [], [])).2.2 s0 hroot hext hp
               rw [hc]
               simp only [hsome, if_true]
-              exact ih gs cs _ hnd' hs' hrel hinv
+              exact ih gs cs _ hnd' hs' hrel hinv hcinv
     · -- dropped by the Go filter: a directory or a link to one
       have hfil : ((e :: rest).filter fun e => e.kind = .file ∨ e.kind = .linkFile) =
           rest.filter fun e => e.kind = .file ∨ e.kind = .linkFile := by
@@ -180,14 +206,14 @@ theorem scan_sim (o : ListOpts) (root : Bytes)
       unfold Cpp.scanEntries
       rcases hk with hk | hk
       · rw [if_pos hk]
-        exact ih gs cs files hnd' hs' hrel hinv
+        exact ih gs cs files hnd' hs' hrel hinv hcinv
       · have hnotdir : e.kind ≠ .dir := by simp [hk]
         rw [if_neg hnotdir]
         by_cases hhid : (!o.hidden ∧ isPrefixOf ['.'] e.name)
         · rw [if_pos hhid]
-          exact ih gs cs files hnd' hs' hrel hinv
+          exact ih gs cs files hnd' hs' hrel hinv hcinv
         · rw [if_neg hhid, if_neg hed, if_pos hk]
-          exact ih gs cs files hnd' hs' hrel hinv
+          exact ih gs cs files hnd' hs' hrel hinv hcinv
 
 /-- the digit width of the first frame of a bucket -/
 def width0 (g : SeqInfo) : Nat := (g.frames.head?.map (·.frame.length)).getD 0
@@ -230,12 +256,24 @@ theorem padChars_chars (st : PadStyle) (w : Nat) (hw1 : 1 ≤ w) :
     · omega
     · exact Or.inl (List.eq_of_mem_replicate hc)
 
-theorem bucket_out (st : PadStyle) (root : Bytes)
+/-- the width every frame of a bucket of the domain has -/
+def widthOf (g : SeqInfo) : Nat := width0 g
+
+/-- one bucket, the Go side in style `st`, the port in style `st'`: both are `rebuild` of the
+    components with the pad characters of the common width in their own style -/
+theorem bucket_out (st st' : PadStyle) (root : Bytes)
     (hroot : root.isEmpty = true ∨ isSuffixOf ['/'] root = true)
-    (g : SeqInfo) (c : Cpp.CInfo) (hr : BRel root g c) (hi : PInv st g) (hd : BucketDom g) :
-    ∃ s, Cpp.bucketOut st root c = .ok s ∧ bucketSeqs st g = [s] := by
-  obtain ⟨hdir, hb, he, hf, hm, hp⟩ := hr
+    (g : SeqInfo) (c : Cpp.CInfo) (hr : BRel root g c) (hi : PInv st g) (hci : CInv st' c)
+    (hd : BucketDom g) :
+    Cpp.bucketOut st' root c =
+        .ok (rebuild st' g.dir g.base (framesToFrameRange (g.frames.map (·.num)) true 0)
+              (padChars st' (widthOf g)) g.ext) ∧
+    bucketSeqs st g =
+        [rebuild st g.dir g.base (framesToFrameRange (g.frames.map (·.num)) true 0)
+              (padChars st (widthOf g)) g.ext] := by
+  obtain ⟨hdir, hb, he, hf, hm⟩ := hr
   obtain ⟨hlen, ⟨hw1, hw⟩, hext, hnl0, hrp⟩ := hd
+  unfold widthOf
   generalize width0 g = w at hw1 hw
   obtain ⟨fs, hparse⟩ : ∃ fs, FrameSet.parse (framesToFrameRange (g.frames.map (·.num)) true 0) = .ok fs := by
     unfold rangeParses at hrp
@@ -243,16 +281,16 @@ theorem bucket_out (st : PadStyle) (root : Bytes)
     | ok fs => exact ⟨fs, rfl⟩
     | error _ => rw [hq] at hrp; cases hrp
   have hnl : (g.dir ++ g.base ++ framesToFrameRange (g.frames.map (·.num)) true 0 ++
-      padChars st w ++ g.ext).contains '\n' = false := by
-    have hpc := (padChars_chars st w hw1).2
+      padChars st' w ++ g.ext).contains '\n' = false := by
+    have hpc := (padChars_chars st' w hw1).2
     simp only [List.contains_eq_mem, List.mem_append, decide_eq_false_iff_not, not_or] at hnl0 ⊢
     refine ⟨⟨hnl0.1, ?_⟩, hnl0.2⟩
     intro hmem
     rcases hpc _ hmem with h | h <;> cases h
-  obtain ⟨hpad, f0, hf0, hf0w⟩ := hi
+  obtain ⟨_, f0, hf0, hf0w⟩ := hi
   have hmin : g.minWidth = w := by rw [← hf0w]; exact hw f0 hf0
-  have hpadw : c.padding = padChars st w := by rw [← hp, hpad, hmin]
-  refine ⟨_, ?_, Order.bucketSeqs_uniform st g w hlen hw⟩
+  have hpadw : c.padding = padChars st' w := by rw [hci, ← hm, hmin]
+  refine ⟨?_, Order.bucketSeqs_uniform st g w hlen hw⟩
   have hne : framesToFrameRange (g.frames.map (·.num)) true 0 ≠ [] := by
     intro h0
     rw [h0] at hparse
@@ -260,8 +298,8 @@ theorem bucket_out (st : PadStyle) (root : Bytes)
     rw [hparse] at this
     cases this
   have hcl : 2 ≤ c.frames.length := by rw [← hf]; simpa using hlen
-  have hout : Cpp.bucketOut st root c =
-      Cpp.bucketSeq st root c.base (framesToFrameRange c.frames true 0) c.padding c.ext := by
+  have hout : Cpp.bucketOut st' root c =
+      Cpp.bucketSeq st' root c.base (framesToFrameRange c.frames true 0) c.padding c.ext := by
     unfold Cpp.bucketOut
     cases hcf : c.frames with
     | nil => simp [hcf] at hcl
@@ -270,22 +308,40 @@ theorem bucket_out (st : PadStyle) (root : Bytes)
       | nil => simp [hcf] at hcl
       | cons a2 r2 => rfl
   rw [hout, ← hf, ← hb, ← he, hpadw, ← hdir]
-  exact cpp_bucketSeq_eq st g.dir g.base _ (padChars st w) g.ext fs (hdir ▸ hroot) hext
-    (padChars_chars st w hw1) hnl hne hparse
+  exact cpp_bucketSeq_eq st' g.dir g.base _ (padChars st' w) g.ext fs (hdir ▸ hroot) hext
+    (padChars_chars st' w hw1) hnl hne hparse
 
-theorem buckets_out (st : PadStyle) (root : Bytes)
+/-- what the Go side makes of a bucket of the domain, in style `st` -/
+def seqOf (st : PadStyle) (g : SeqInfo) : Seq :=
+  rebuild st g.dir g.base (framesToFrameRange (g.frames.map (·.num)) true 0) (padChars st (widthOf g)) g.ext
+
+theorem buckets_out2 (st st' : PadStyle) (root : Bytes)
     (hroot : root.isEmpty = true ∨ isSuffixOf ['/'] root = true) :
     ∀ (gs : List SeqInfo) (cs : List Cpp.CInfo), Forall2 (BRel root) gs cs →
-      (∀ g ∈ gs, PInv st g) → (∀ g ∈ gs, BucketDom g) →
-      Cpp.bucketsOut st root cs = .ok (gs.map (bucketSeqs st)).flatten
-  | _, _, .nil, _, _ => by simp [Cpp.bucketsOut]
-  | g :: gs, c :: cs, .cons hr hrest, hi, hd => by
-    obtain ⟨s, hs, hg⟩ := bucket_out st root hroot g c hr (hi g List.mem_cons_self) (hd g List.mem_cons_self)
-    have ih := buckets_out st root hroot gs cs hrest
-      (fun x hx => hi x (List.mem_cons_of_mem _ hx)) (fun x hx => hd x (List.mem_cons_of_mem _ hx))
-    unfold Cpp.bucketsOut
-    rw [hs, ih]
-    simp [hg]
+      (∀ g ∈ gs, PInv st g) → (∀ c ∈ cs, CInv st' c) → (∀ g ∈ gs, BucketDom g) →
+      Cpp.bucketsOut st' root cs = .ok (gs.map (seqOf st')) ∧
+      (gs.map (bucketSeqs st)).flatten = gs.map (seqOf st)
+  | _, _, .nil, _, _, _ => by simp [Cpp.bucketsOut]
+  | g :: gs, c :: cs, .cons hr hrest, hi, hci, hd => by
+    obtain ⟨hs, hg⟩ := bucket_out st st' root hroot g c hr (hi g List.mem_cons_self)
+      (hci c List.mem_cons_self) (hd g List.mem_cons_self)
+    obtain ⟨ih1, ih2⟩ := buckets_out2 st st' root hroot gs cs hrest
+      (fun x hx => hi x (List.mem_cons_of_mem _ hx)) (fun x hx => hci x (List.mem_cons_of_mem _ hx))
+      (fun x hx => hd x (List.mem_cons_of_mem _ hx))
+    refine ⟨?_, ?_⟩
+    · unfold Cpp.bucketsOut
+      rw [hs, ih1]
+      simp [seqOf]
+    · simp only [List.map_cons, List.flatten_cons, hg, ih2]
+      simp [seqOf]
+
+theorem buckets_out (st : PadStyle) (root : Bytes)
+    (hroot : root.isEmpty = true ∨ isSuffixOf ['/'] root = true)
+    (gs : List SeqInfo) (cs : List Cpp.CInfo) (hrel : Forall2 (BRel root) gs cs)
+    (hi : ∀ g ∈ gs, PInv st g) (hci : ∀ c ∈ cs, CInv st c) (hd : ∀ g ∈ gs, BucketDom g) :
+    Cpp.bucketsOut st root cs = .ok (gs.map (bucketSeqs st)).flatten := by
+  obtain ⟨h1, h2⟩ := buckets_out2 st st root hroot gs cs hrel hi hci hd
+  rw [h1, h2]
 
 /-- without the single-files option the list of single files stays as it was -/
 theorem scanItems_files (o : ListOpts) (hs : o.single = false) :
@@ -305,5 +361,221 @@ theorem scanItems_files (o : ListOpts) (hs : o.single = false) :
       · exact scanItems_files o hs rest _ _ _ _ h
       · simp only [Bool.false_eq_true, if_false] at h
         exact scanItems_files o hs rest _ _ _ _ h
+
+/-! ### the pattern lookup -/
+
+theorem dropWhile_nil_iff_all {α : Type} (p : α → Bool) : ∀ t : List α,
+    t.dropWhile p = [] ↔ t.all p = true
+  | [] => by simp
+  | x :: xs => by
+    cases hx : p x
+    · simp [List.dropWhile_cons, hx]
+    · simp [List.dropWhile_cons, hx, dropWhile_nil_iff_all p xs]
+
+theorem takeWhile_of_all {α : Type} (p : α → Bool) : ∀ t : List α, t.all p = true → t.takeWhile p = t
+  | [], _ => rfl
+  | x :: xs, h => by
+    simp only [List.all_cons, Bool.and_eq_true] at h
+    simp [List.takeWhile_cons, h.1, takeWhile_of_all p xs h.2]
+
+theorem takeWhile_nil_of_drop_nil {α : Type} (p : α → Bool) (t : List α)
+    (h : t.dropWhile p = []) : t.takeWhile p = t :=
+  takeWhile_of_all p t ((dropWhile_nil_iff_all p t).1 h)
+
+/-- the digits test shared by the two frame-number tests -/
+theorem digits_iff (t : Bytes) :
+    ((if (t.takeWhile isDigit).isEmpty then (none : Option (Bytes × Bytes))
+      else some (t.takeWhile isDigit, t.dropWhile isDigit)).map (·.2) = some []) ↔
+    (t.isEmpty = false ∧ t.all isDigit = true) := by
+  constructor
+  · intro h
+    by_cases he : (t.takeWhile isDigit).isEmpty = true
+    · simp [he] at h
+    · simp only [he, Bool.false_eq_true, if_false, Option.map_some, Option.some.injEq] at h
+      have hall := (dropWhile_nil_iff_all isDigit t).1 h
+      refine ⟨?_, hall⟩
+      rw [takeWhile_nil_of_drop_nil isDigit t h] at he
+      simpa using he
+  · intro ⟨hne, hall⟩
+    have ht := takeWhile_of_all isDigit t hall
+    have hd := (dropWhile_nil_iff_all isDigit t).2 hall
+    rw [ht, hd]
+    simp [hne]
+
+/-- the port's hand-written frame-number test accepts what the Go test accepts -/
+theorem isFrameTok_iff (r : Bytes) :
+    Cpp.isFrameTok r = true ↔ ((frameAt r).map (·.2) = some [] ∧ (atoi r).isSome = true) := by
+  unfold Cpp.isFrameTok
+  have key : ∀ (ds : Bytes) (pre : Bytes → Bytes),
+      ((if (ds.takeWhile isDigit).isEmpty then (none : Option (Bytes × Bytes))
+        else some (pre (ds.takeWhile isDigit), ds.dropWhile isDigit)).map (·.2) = some []) ↔
+      (ds.isEmpty = false ∧ ds.all isDigit = true) := by
+    intro ds pre
+    have := digits_iff ds
+    by_cases he : (ds.takeWhile isDigit).isEmpty = true
+    · simp only [he, if_true] at this ⊢; exact this
+    · simp only [he, Bool.false_eq_true, if_false, Option.map_some] at this ⊢; exact this
+  simp only
+  split
+  · rename_i t
+    have := key t (fun d => '-' :: d)
+    simp only [frameAt]
+    simp only [Bool.and_eq_true, Bool.not_eq_true']
+    rw [this]
+  · rename_i hne
+    have hfa : frameAt r =
+        (if (r.takeWhile isDigit).isEmpty then none
+         else some (r.takeWhile isDigit, r.dropWhile isDigit)) := by
+      unfold frameAt
+      split
+      · rename_i t'
+        exact absurd rfl (hne t')
+      · rfl
+    rw [hfa]
+    have := key r id
+    simp only [id] at this
+    simp only [Bool.and_eq_true, Bool.not_eq_true']
+    rw [this]
+
+/-- the first passes of a lookup (a template on both sides) keep related bucket lists -/
+theorem scanT_sim (oG oC : ListOpts) (hh : oG.hidden = oC.hidden) (t : Seq) (d : Bytes) :
+    ∀ (entries : List Entry) (gs : List SeqInfo) (cs : List Cpp.CInfo) (files : List Seq),
+      (∀ e ∈ entries, e.kind ≠ .dangling) →
+      Forall2 (BRel t.dir) gs cs → (∀ g ∈ gs, PInv oG.style g) → (∀ c ∈ cs, CInv oC.style c) →
+      ∃ gs' cs',
+        scanItems oG (some t) ((entries.filter fun e => e.kind = .file ∨ e.kind = .linkFile).map
+            fun e => ⟨d, e.name⟩) gs files = .ok (gs', files) ∧
+        Cpp.scanT oC t entries cs = .ok cs' ∧
+        Forall2 (BRel t.dir) gs' cs' ∧ (∀ g ∈ gs', PInv oG.style g) ∧ (∀ c ∈ cs', CInv oC.style c)
+  | [], gs, cs, files, _, hrel, hinv, hcinv => by
+    exact ⟨gs, cs, by simp [scanItems], by simp [Cpp.scanT], hrel, hinv, hcinv⟩
+  | e :: rest, gs, cs, files, hnd, hrel, hinv, hcinv => by
+    have hnd' : ∀ e ∈ rest, e.kind ≠ .dangling := fun x hx => hnd x (List.mem_cons_of_mem _ hx)
+    have ih := scanT_sim oG oC hh t d rest
+    have hed := hnd e List.mem_cons_self
+    by_cases hkeep : (e.kind = .file ∨ e.kind = .linkFile)
+    · have hfil : ((e :: rest).filter fun e => e.kind = .file ∨ e.kind = .linkFile) =
+          e :: rest.filter fun e => e.kind = .file ∨ e.kind = .linkFile := by
+        simp [hkeep]
+      have hnotdir : e.kind ≠ .dir := by rcases hkeep with h | h <;> simp [h]
+      have hnotld : e.kind ≠ .linkDir := by rcases hkeep with h | h <;> simp [h]
+      rw [hfil, List.map_cons]
+      unfold scanItems Cpp.scanT
+      simp only [if_neg hnotdir]
+      by_cases hhid : (!oG.hidden ∧ isPrefixOf ['.'] e.name)
+      · have hhid' : (!oC.hidden ∧ isPrefixOf ['.'] e.name) := by rw [← hh]; exact hhid
+        rw [if_pos hhid, if_pos hhid']
+        exact ih gs cs files hnd' hrel hinv hcinv
+      · have hhid' : ¬ (!oC.hidden ∧ isPrefixOf ['.'] e.name) := by rw [← hh]; exact hhid
+        rw [if_neg hhid, if_neg hhid', if_neg hed, if_neg hnotld]
+        by_cases hglob : (isPrefixOf t.base e.name ∧ isSuffixOf t.ext e.name ∧
+            t.base.length + t.ext.length ≤ e.name.length)
+        · rw [if_pos hglob, if_pos hglob]
+          by_cases hfr : Cpp.isFrameTok
+              ((e.name.drop t.base.length).take (e.name.length - t.base.length - t.ext.length)) = true
+          · have hgo := (isFrameTok_iff _).1 hfr
+            rw [if_pos hfr, if_pos hgo]
+            exact ih _ _ files hnd' (addFrame_rel oG.style oC.style t.dir _ _ _ gs cs hrel)
+              (addFrame_pinv oG.style t.dir _ _ _ gs hinv) (addFrame_cinv oC.style _ _ _ cs hcinv)
+          · have hgo : ¬ _ := fun h => hfr ((isFrameTok_iff _).2 h)
+            rw [if_neg hfr, if_neg hgo]
+            exact ih gs cs files hnd' hrel hinv hcinv
+        · rw [if_neg hglob, if_neg hglob]
+          exact ih gs cs files hnd' hrel hinv hcinv
+    · have hfil : ((e :: rest).filter fun e => e.kind = .file ∨ e.kind = .linkFile) =
+          rest.filter fun e => e.kind = .file ∨ e.kind = .linkFile := by
+        simp [hkeep]
+      rw [hfil]
+      have hk : e.kind = .dir ∨ e.kind = .linkDir := by
+        cases hkk : e.kind <;> simp_all
+      unfold Cpp.scanT
+      rcases hk with hk | hk
+      · rw [if_pos hk]
+        exact ih gs cs files hnd' hrel hinv hcinv
+      · have hnotdir : e.kind ≠ .dir := by simp [hk]
+        rw [if_neg hnotdir]
+        by_cases hhid : (!oC.hidden ∧ isPrefixOf ['.'] e.name)
+        · rw [if_pos hhid]
+          exact ih gs cs files hnd' hrel hinv hcinv
+        · rw [if_neg hhid, if_neg hed, if_pos hk]
+          exact ih gs cs files hnd' hrel hinv hcinv
+
+/-- switched to the caller's style, the port's sequence (built in the default style) and the Go
+    one (built in the caller's style) are the same sequence -/
+theorem seqOf_style (st : PadStyle) (g : SeqInfo) (hd : BucketDom g) :
+    (seqOf .hash4 g).setPaddingStyle st = (seqOf st g).setPaddingStyle st := by
+  obtain ⟨_, ⟨hw1, _⟩, _, _, hrp⟩ := hd
+  have hne : framesToFrameRange (g.frames.map (·.num)) true 0 ≠ [] := by
+    intro h0
+    rw [h0] at hrp
+    revert hrp
+    decide
+  have hz : ∀ st' : PadStyle, padSize st' (padChars st' (widthOf g)) = widthOf g :=
+    fun st' => padSize_padChars st' _ (by unfold widthOf; omega)
+  have hform : ∀ st' : PadStyle, (seqOf st' g).setPaddingStyle st =
+      { (seqOf st' g) with style := st, pad := padChars st (widthOf g),
+                           zfill := padSize st (padChars st (widthOf g)) } := by
+    intro st'
+    have hpn := ListAux.padChars_ne_nil st' (widthOf g)
+    unfold seqOf rebuild
+    have hpe : (padChars st' ↑(widthOf g)).isEmpty = false := by
+      cases hq : padChars st' ↑(widthOf g) with
+      | nil => exact absurd hq hpn
+      | cons _ _ => rfl
+    have hfe : (framesToFrameRange (g.frames.map (·.num)) true 0).isEmpty = false := by
+      cases hq : framesToFrameRange (g.frames.map (·.num)) true 0 with
+      | nil => exact absurd hq hne
+      | cons _ _ => rfl
+    simp only [hpe, hfe, Bool.false_eq_true, false_and, if_false]
+    unfold Seq.setFrameRange
+    split <;> simp [Seq.setPaddingStyle, Seq.setPadding, hz st']
+  rw [hform .hash4, hform st]
+  unfold seqOf rebuild
+  have hfe : (framesToFrameRange (g.frames.map (·.num)) true 0).isEmpty = false := by
+    cases hq : framesToFrameRange (g.frames.map (·.num)) true 0 with
+    | nil => exact absurd hq hne
+    | cons _ _ => rfl
+  have hpe : ∀ st' : PadStyle, (padChars st' ↑(widthOf g)).isEmpty = false := by
+    intro st'
+    cases hq : padChars st' ↑(widthOf g) with
+    | nil => exact absurd hq (ListAux.padChars_ne_nil st' (widthOf g))
+    | cons _ _ => rfl
+  simp only [hpe, hfe, Bool.false_eq_true, false_and, if_false]
+  unfold Seq.setFrameRange
+  split <;> simp [Seq.setPadding]
+
+theorem seqOf_key (st : PadStyle) (g : SeqInfo) :
+    (seqOf st g).base = g.base ∧ (seqOf st g).ext = g.ext := by
+  unfold seqOf rebuild
+  simp only
+  split
+  · simp [Seq.setPadding]
+  · unfold Seq.setFrameRange
+    split <;> simp [Seq.setPadding]
+
+/-- picking the first result with the pattern's basename and extension, then switching it to the
+    caller's style -/
+theorem pick_eq (st : PadStyle) (b e : Bytes) : ∀ gs : List SeqInfo, (∀ g ∈ gs, BucketDom g) →
+    (((gs.map (seqOf .hash4)).find? fun s => s.base = b ∧ s.ext = e).map fun s => s.setPaddingStyle st) =
+    ((((gs.map (seqOf st)).filter fun s => s.base = b ∧ s.ext = e).map
+        fun s => s.setPaddingStyle st)).head?
+  | [], _ => rfl
+  | g :: gs, h => by
+    have hk4 := seqOf_key .hash4 g
+    have hks := seqOf_key st g
+    simp only [List.map_cons, List.find?_cons, List.filter_cons]
+    by_cases hp : g.base = b ∧ g.ext = e
+    · have h4 : decide ((seqOf .hash4 g).base = b ∧ (seqOf .hash4 g).ext = e) = true := by
+        rw [hk4.1, hk4.2]; exact decide_eq_true hp
+      have hs : decide ((seqOf st g).base = b ∧ (seqOf st g).ext = e) = true := by
+        rw [hks.1, hks.2]; exact decide_eq_true hp
+      simp only [h4, hs, if_true, List.map_cons, List.head?_cons, Option.map_some]
+      rw [seqOf_style st g (h g List.mem_cons_self)]
+    · have h4 : decide ((seqOf .hash4 g).base = b ∧ (seqOf .hash4 g).ext = e) = false := by
+        rw [hk4.1, hk4.2]; exact decide_eq_false hp
+      have hs : decide ((seqOf st g).base = b ∧ (seqOf st g).ext = e) = false := by
+        rw [hks.1, hks.2]; exact decide_eq_false hp
+      simp only [h4, hs, Bool.false_eq_true, if_false]
+      exact pick_eq st b e gs (fun x hx => h x (List.mem_cons_of_mem _ hx))
 
 end Gfs.Proofs.CppScan
